@@ -123,6 +123,11 @@ def configurations(pid, tier, seed):
                                        OpSet={"conjugate", "multiply", "integrate"},
                                        EmitOps={3}, EmitSmall=2, **sd, **em(70, 4)),
                                    {"targets": {"conjugate", "integrate"}}),
+            # conjugation of operator results of every kind: also the outputs of differentiate
+            "d_conj_of_diff": (cfg(Dom=(2, 2), KSet={1, 2}, MaxL=4, InKindSeq=("poly",), Scheme=3,
+                                   PolyDeg=2, MaxOps=2, OpSet={"differentiate", "conjugate"},
+                                   DiffK={1}, J=2, EmitOps={2}, EmitSmall=2, **sd, **em(12, 2)),
+                               {"targets": {"conjugate"}}),
         }
     if pid == "C02":
         o = {"flagset": "fo4", "addressable": True}
